@@ -1,7 +1,7 @@
 (* C07, part B -- [merge] and [eval_literal] of the faithful configuration preserve the invariant,
    never panic on coherent operands, denote the merge of the specification, and leave every
    existing record instance untouched. *)
-From Coq Require Import List NArith ZArith Bool Lia Arith.
+From Coq Require Import List NArith ZArith Bool Lia Arith Sorted.
 Import ListNotations.
 From NV Require Import Rec.Lang Rec.Spec Rec.Mech Rec.SpecProofs Rec.MechInv.
 
@@ -80,8 +80,72 @@ Proof.
 Qed.
 
 (* ------------------------------------------------------------------------- phase 1: what merge allocates *)
-Definition tids (r : irec) : list nat :=
-  flat_map (fun kf => match ival (snd kf) with Some t => [t] | None => [] end) r.
+(* ------------------------------------------------------------------------- fresh thunk ids
+   Thunks are allocated one after the other.  Of the thunk ids that a piece of the new record
+   mentions, those that are fresh (>= n0) form an increasing sequence inside the interval of ids
+   handed out while that piece was built; hence no fresh thunk occurs twice in the new record. *)
+Definition isfresh (n0 : nat) (t : nat) : bool := n0 <=? t.
+
+Definition fresh_seq (n0 lo hi : nat) (ts : list nat) : Prop :=
+  StronglySorted lt (filter (isfresh n0) ts) /\ Forall (fun t => lo <= t < hi) (filter (isfresh n0) ts).
+
+Lemma fresh_seq_nil : forall n0 lo hi, fresh_seq n0 lo hi [].
+Proof. intros. split; constructor. Qed.
+
+Lemma fresh_seq_widen : forall n0 lo hi lo' hi' ts,
+  fresh_seq n0 lo hi ts -> lo' <= lo -> hi <= hi' -> fresh_seq n0 lo' hi' ts.
+Proof.
+  intros n0 lo hi lo' hi' ts [H1 H2] Hl Hh. split; [exact H1|].
+  eapply Forall_impl; [|exact H2]. cbn. intros t Ht. lia.
+Qed.
+
+Lemma fresh_seq_app : forall n0 lo mid hi ts1 ts2,
+  fresh_seq n0 lo mid ts1 -> fresh_seq n0 mid hi ts2 -> lo <= mid -> mid <= hi ->
+  fresh_seq n0 lo hi (ts1 ++ ts2).
+Proof.
+  intros n0 lo mid hi ts1 ts2 [S1 R1] [S2 R2] Hl Hh. unfold fresh_seq. rewrite filter_app.
+  split.
+  - induction (filter (isfresh n0) ts1) as [|a l IH]; [exact S2|].
+    cbn [app]. inversion S1 as [|? ? Sl Hal]; subst. inversion R1 as [|? ? Ha Rl]; subst. constructor.
+    + apply IH; assumption.
+    + apply Forall_app. split; [exact Hal|]. eapply Forall_impl; [|exact R2]. cbn. intros t Ht. lia.
+  - apply Forall_app. split; (eapply Forall_impl; [|eassumption]); cbn; intros t Ht; lia.
+Qed.
+
+Lemma fresh_seq_app' : forall n0 lo hi lo1 hi1 lo2 hi2 ts1 ts2,
+  fresh_seq n0 lo1 hi1 ts1 -> fresh_seq n0 lo2 hi2 ts2 ->
+  lo <= lo1 -> lo <= lo2 -> lo2 <= hi -> hi2 <= hi -> hi1 <= lo2 ->
+  fresh_seq n0 lo hi (ts1 ++ ts2).
+Proof.
+  intros n0 lo hi lo1 hi1 lo2 hi2 ts1 ts2 H1 H2 A B C D E.
+  apply (fresh_seq_app n0 lo lo2 hi); [| |lia|lia].
+  - eapply fresh_seq_widen; [exact H1 | lia | lia].
+  - eapply fresh_seq_widen; [exact H2 | lia | lia].
+Qed.
+
+Ltac fs_len := repeat rewrite app_length; cbn [length]; lia.
+Ltac fs_app Ha Hb := eapply (fresh_seq_app' _ _ _ _ _ _ _ _ _ Ha Hb); fs_len.
+Ltac fs_exact H := eapply fresh_seq_widen; [exact H | fs_len | fs_len].
+
+Lemma fresh_seq_old : forall n0 lo hi t, t < n0 -> fresh_seq n0 lo hi [t].
+Proof.
+  intros n0 lo hi t H. unfold fresh_seq, isfresh. cbn [filter].
+  assert (E : (n0 <=? t) = false) by (apply Nat.leb_gt; exact H). rewrite E. split; constructor.
+Qed.
+
+Lemma fresh_seq_one : forall n0 lo hi t, lo <= t < hi -> fresh_seq n0 lo hi [t].
+Proof.
+  intros n0 lo hi t H. unfold fresh_seq. cbn [filter]. destruct (isfresh n0 t); split; repeat constructor; lia.
+Qed.
+
+Lemma fresh_seq_NoDup : forall n0 lo hi ts, fresh_seq n0 lo hi ts -> NoDup (filter (isfresh n0) ts).
+Proof.
+  intros n0 lo hi ts [S _]. induction S as [|a l S IH Hal]; constructor; [|exact IH].
+  intros Hin. rewrite Forall_forall in Hal. specialize (Hal a Hin). lia.
+Qed.
+
+(* ------------------------------------------------------------------------- phase 1: what merge allocates *)
+Definition tids (r : irec) : list nat := flat_map (fun kf => ftids (snd kf)) r.
 
 (* a thunk of the record being built, before it is patched: either a standard thunk, or a fresh
    revertible thunk without cached value *)
@@ -92,60 +156,165 @@ Definition pre_thunk (n0 : nat) (keys : list N) (tid : nat) (th : thunk) : Prop 
   | _ => False
   end.
 
+Definition pre_tid (n0 : nat) (keys : list N) (ths : list thunk) (tid : nat) : Prop :=
+  exists th, nth_error ths tid = Some th /\ pre_thunk n0 keys tid th.
+
+(* thunk [tid] of the record being built denotes the definition [sb] *)
+Definition slot_ok (n0 : nat) (keys : list N) (ths : list thunk) (tid : nat) (sb : sbody) : Prop :=
+  exists th, nth_error ths tid = Some th /\ pre_thunk n0 keys tid th /\ sb_sim (abs_thunk th) sb.
+
+Definition ctrs_ok (n0 : nat) (keys : list N) (ths : list thunk)
+  (cs : list (ckind * nat)) (tg : list (ckind * sbody)) : Prop :=
+  Forall2 (fun kc ks => fst kc = fst ks /\ slot_ok n0 keys ths (snd kc) (snd ks)) cs tg.
+
+Definition val_ok (n0 : nat) (keys : list N) (ths : list thunk) (v : option nat) (tg : option sbody) : Prop :=
+  match v, tg with
+  | Some tid, Some sb => slot_ok n0 keys ths tid sb
+  | None, None => True
+  | _, _ => False
+  end.
+
 (* field [f] of the record being built denotes [tgt] *)
 Definition out_ok (n0 : nat) (keys : list N) (ths : list thunk) (tgt : sfld) (f : ifld) : Prop :=
-  iprio f = sprio tgt /\
-  match ival f with
-  | None => sval tgt = None
-  | Some tid => exists th sb, nth_error ths tid = Some th /\ pre_thunk n0 keys tid th /\
-                              sval tgt = Some sb /\ sb_sim (abs_thunk th) sb
-  end.
+  iprio f = sprio tgt /\ val_ok n0 keys ths (ival f) (sval tgt) /\ ctrs_ok n0 keys ths (ictrs f) (sctrs tgt).
+
+Lemma slot_ok_app : forall n0 keys ths e tid sb, slot_ok n0 keys ths tid sb -> slot_ok n0 keys (ths ++ e) tid sb.
+Proof.
+  intros n0 keys ths e tid sb (th & Hth & H). exists th. split; [apply nth_error_app_l; exact Hth | exact H].
+Qed.
+
+Lemma ctrs_ok_app : forall n0 keys ths e cs tg, ctrs_ok n0 keys ths cs tg -> ctrs_ok n0 keys (ths ++ e) cs tg.
+Proof.
+  intros n0 keys ths e cs tg H. induction H as [|a b l l' [H1 H2] _ IH]; constructor; [|exact IH].
+  split; [exact H1 | apply slot_ok_app; exact H2].
+Qed.
+
+Lemma val_ok_app : forall n0 keys ths e v tg, val_ok n0 keys ths v tg -> val_ok n0 keys (ths ++ e) v tg.
+Proof. intros n0 keys ths e [tid|] [sb|] H; cbn [val_ok] in *; auto using slot_ok_app. Qed.
 
 Lemma out_ok_app : forall n0 keys ths e tgt f, out_ok n0 keys ths tgt f -> out_ok n0 keys (ths ++ e) tgt f.
 Proof.
-  intros n0 keys ths e tgt f [Hp H]. split; [exact Hp|]. destruct (ival f) as [tid|]; [|exact H].
-  destruct H as (th & sb & Hth & Hrest). exists th, sb. split; [apply nth_error_app_l; exact Hth | exact Hrest].
+  intros n0 keys ths e tgt f (Hp & Hv & Hc). split; [exact Hp|]. split; [apply val_ok_app; exact Hv | apply ctrs_ok_app; exact Hc].
 Qed.
 
-(* fresh thunk ids handed out between two allocation points *)
-Definition fresh_in (n0 lo hi : nat) (f : ifld) : Prop :=
-  forall tid, ival f = Some tid -> n0 <= tid -> lo <= tid < hi.
+(* the same facts for any later state of the heap *)
+Definition prefix (ths ths' : list thunk) : Prop := exists e, ths' = ths ++ e.
+
+Lemma val_ok_prefix : forall n0 keys ths ths' v tg, prefix ths ths' -> val_ok n0 keys ths v tg -> val_ok n0 keys ths' v tg.
+Proof. intros n0 keys ths ths' v tg [e ->]. apply val_ok_app. Qed.
+
+Lemma ctrs_ok_prefix : forall n0 keys ths ths' cs tg, prefix ths ths' -> ctrs_ok n0 keys ths cs tg -> ctrs_ok n0 keys ths' cs tg.
+Proof. intros n0 keys ths ths' cs tg [e ->]. apply ctrs_ok_app. Qed.
+
+Lemma out_ok_prefix : forall n0 keys ths ths' tgt f, prefix ths ths' -> out_ok n0 keys ths tgt f -> out_ok n0 keys ths' tgt f.
+Proof. intros n0 keys ths ths' tgt f [e ->]. apply out_ok_app. Qed.
+
+Ltac solve_prefix :=
+  unfold prefix;
+  first [ exists []; rewrite app_nil_r; repeat rewrite <- app_assoc; reflexivity
+        | eexists; repeat rewrite <- app_assoc; reflexivity ].
+
+Lemma slot_ok_pre : forall n0 keys ths tid sb, slot_ok n0 keys ths tid sb -> pre_tid n0 keys ths tid.
+Proof. intros n0 keys ths tid sb (th & Hth & Hpre & _). exists th. split; assumption. Qed.
+
+Lemma out_ok_pre : forall n0 keys ths tgt f, out_ok n0 keys ths tgt f ->
+  forall tid, In tid (ftids f) -> pre_tid n0 keys ths tid.
+Proof.
+  intros n0 keys ths tgt f (_ & Hv & Hc) tid Hin. unfold ftids in Hin. apply in_app_or in Hin. destruct Hin as [Hin|Hin].
+  - destruct (ival f) as [t|]; [|destruct Hin]. destruct Hin as [->|[]].
+    destruct (sval tgt) as [sb|]; cbn [val_ok] in Hv; [|contradiction]. eapply slot_ok_pre. exact Hv.
+  - apply in_map_iff in Hin. destruct Hin as [[k t] [E Hin]]. cbn [snd] in E. subst t.
+    clear Hv. induction Hc as [|a b l l' [H1 H2] _ IH]; [destruct Hin|].
+    destruct Hin as [->|Hin]; [eapply slot_ok_pre; exact H2 | apply IH; exact Hin].
+Qed.
+
+(* ---- ThunkData::revert on one thunk *)
+Lemma revert_tid_ok : forall ths0 e rid kin keys tid ths' tid',
+  tid_ok ths0 rid kin tid -> incl kin keys ->
+  revert_tid RevFresh (ths0 ++ e) tid = (ths', tid') ->
+  exists e', ths' = (ths0 ++ e) ++ e' /\
+             slot_ok (length ths0) keys ths' tid' (abs_tid ths0 tid) /\
+             fresh_seq (length ths0) (length (ths0 ++ e)) (length ths') [tid'].
+Proof.
+  intros ths0 e rid kin keys tid ths' tid' (th & Hth & Htok) Hinc Hrev. unfold revert_tid in Hrev.
+  rewrite (nth_error_app_l _ _ e _ _ Hth) in Hrev. unfold abs_tid. rewrite Hth.
+  assert (Hlt : tid < length ths0) by (apply nth_error_Some; congruence).
+  destruct th as [b|o [d|] [c|]]; cbn [thunk_ok] in Htok; try contradiction.
+  - (* standard thunk: shared *)
+    inversion Hrev; subst. exists []. rewrite app_nil_r. split; [reflexivity|]. split.
+    + exists (Std b). split; [apply nth_error_app_l; exact Hth|]. split; [exact Htok | apply sb_sim_refl].
+    + apply fresh_seq_old. exact Hlt.
+  - (* revertible thunk: a new one without cached value *)
+    destruct Htok as (-> & Hwf & Hd). inversion Hrev; subst. exists [Rev o (Some d) None]. split; [reflexivity|]. split.
+    + exists (Rev o (Some d) None). rewrite nth_error_app2 by lia. rewrite Nat.sub_diag. split; [reflexivity|].
+      split; [|apply sb_sim_refl]. cbn [pre_thunk]. rewrite app_length. repeat split; [lia | exact Hwf | eapply incl_tran; eassumption].
+    + apply fresh_seq_one. rewrite !app_length. cbn [length]. lia.
+Qed.
+
+Lemma revert_ctrs_ok : forall cs ths0 e rid kin keys ths' cs',
+  (forall kc, In kc cs -> tid_ok ths0 rid kin (snd kc)) -> incl kin keys ->
+  revert_ctrs RevFresh (ths0 ++ e) cs = (ths', cs') ->
+  exists e', ths' = (ths0 ++ e) ++ e' /\
+             ctrs_ok (length ths0) keys ths' cs' (map (fun kc => (fst kc, abs_tid ths0 (snd kc))) cs) /\
+             fresh_seq (length ths0) (length (ths0 ++ e)) (length ths') (map snd cs').
+Proof.
+  induction cs as [|[k tid] cs IH]; intros ths0 e rid kin keys ths' cs' Hok Hinc Hrev; cbn [revert_ctrs] in Hrev.
+  - inversion Hrev; subst. exists []. rewrite app_nil_r. split; [reflexivity|]. split; [constructor | apply fresh_seq_nil].
+  - destruct (revert_tid RevFresh (ths0 ++ e) tid) as [ths1 tid1] eqn:E1.
+    destruct (revert_ctrs RevFresh ths1 cs) as [ths2 r] eqn:E2. inversion Hrev; subst. clear Hrev.
+    destruct (revert_tid_ok _ _ _ _ _ _ _ _ (Hok (k, tid) (or_introl eq_refl)) Hinc E1) as (e1 & -> & Hs1 & Hf1).
+    rewrite <- app_assoc in E2.
+    destruct (IH ths0 (e ++ e1) rid kin keys ths' r (fun kc H => Hok kc (or_intror H)) Hinc E2) as (e2 & -> & Hc & Hf2).
+    exists (e1 ++ e2). split; [rewrite !app_assoc; reflexivity|]. split.
+    + cbn [map fst snd]. constructor; [|exact Hc]. split; [reflexivity|]. cbn [snd].
+      apply slot_ok_app. rewrite app_assoc. exact Hs1.
+    + cbn [map snd]. change (tid1 :: map snd r) with ([tid1] ++ map snd r).
+      eapply fresh_seq_app; [exact Hf1 | rewrite <- app_assoc; exact Hf2 | |]; rewrite !app_length; lia.
+Qed.
+
+Lemma revert_val_ok : forall ths0 e rid kin keys v ths' v',
+  (forall tid, v = Some tid -> tid_ok ths0 rid kin tid) -> incl kin keys ->
+  revert_val RevFresh (ths0 ++ e) v = (ths', v') ->
+  exists e', ths' = (ths0 ++ e) ++ e' /\
+             val_ok (length ths0) keys ths' v' (option_map (abs_tid ths0) v) /\
+             fresh_seq (length ths0) (length (ths0 ++ e)) (length ths') (match v' with Some t => [t] | None => [] end).
+Proof.
+  intros ths0 e rid kin keys [tid|] ths' v' Hok Hinc Hrev; cbn [revert_val] in Hrev.
+  - destruct (revert_tid RevFresh (ths0 ++ e) tid) as [ths1 tid1] eqn:E1. inversion Hrev; subst.
+    destruct (revert_tid_ok _ _ _ _ _ _ _ _ (Hok tid eq_refl) Hinc E1) as (e1 & -> & Hs1 & Hf1).
+    exists e1. split; [reflexivity|]. split; [exact Hs1 | exact Hf1].
+  - inversion Hrev; subst. exists []. rewrite app_nil_r. split; [reflexivity|]. split; [exact I | apply fresh_seq_nil].
+Qed.
+
+Lemma fld_ok_val : forall ths rid keys f tid, fld_ok ths rid keys f -> ival f = Some tid -> tid_ok ths rid keys tid.
+Proof. intros ths rid keys f tid H E. apply H. unfold ftids. rewrite E. left. reflexivity. Qed.
+
+Lemma fld_ok_ctr : forall ths rid keys f kc, fld_ok ths rid keys f -> In kc (ictrs f) -> tid_ok ths rid keys (snd kc).
+Proof.
+  intros ths rid keys f kc H Hin. apply H. unfold ftids. apply in_or_app. right. apply in_map. exact Hin.
+Qed.
 
 Lemma revert_fld_ok : forall ths0 e rid kin keys f ths' f',
   fld_ok ths0 rid kin f -> incl kin keys ->
   revert_fld RevFresh (ths0 ++ e) f = (ths', f') ->
   exists e', ths' = (ths0 ++ e) ++ e' /\
              out_ok (length ths0) keys ths' (abs_fld ths0 f) f' /\
-             fresh_in (length ths0) (length (ths0 ++ e)) (length ths') f'.
+             fresh_seq (length ths0) (length (ths0 ++ e)) (length ths') (ftids f').
 Proof.
-  intros ths0 e rid kin keys f ths' f' Hok Hinc Hrev. unfold revert_fld in Hrev. unfold fld_ok in Hok.
-  unfold abs_fld, out_ok, fresh_in. destruct (ival f) as [tid|] eqn:Ev.
-  - destruct Hok as (th & Hth & Htok). unfold revert_tid in Hrev.
-    rewrite (nth_error_app_l _ _ e _ _ Hth) in Hrev.
-    assert (Hlt : tid < length ths0) by (apply nth_error_Some; congruence).
-    destruct th as [b|o [d|] [c|]]; cbn [thunk_ok] in Htok; try contradiction.
-    + (* standard thunk: shared *)
-      inversion Hrev; subst. exists []. rewrite app_nil_r. cbn [iprio ival sprio sval].
-      split; [reflexivity|]. split; [split; [reflexivity|]|].
-      * exists (Std b), (abs_thunk (Std b)). rewrite (nth_error_app_l _ _ e _ _ Hth), Hth. cbn [option_map].
-        repeat split; try reflexivity; [exact Htok | apply sb_sim_refl].
-      * intros t Ht Hge. inversion Ht; subst. lia.
-    + (* revertible thunk: a new one without cached value *)
-      destruct Htok as (-> & Hwf & Hd). inversion Hrev; subst. exists [Rev o (Some d) None].
-      cbn [iprio ival sprio sval]. split; [reflexivity|]. split; [split; [reflexivity|]|].
-      * exists (Rev o (Some d) None), (abs_thunk (Rev o (Some d) (Some rid))).
-        rewrite nth_error_app2 by lia. rewrite Nat.sub_diag. cbn [nth_error]. rewrite Hth. cbn [option_map].
-        repeat split; try reflexivity.
-        -- rewrite app_length. lia.
-        -- exact Hwf.
-        -- eapply incl_tran; eassumption.
-        -- cbn [abs_thunk]. apply sb_sim_refl.
-      * intros t Ht _. inversion Ht; subst. rewrite !app_length. cbn [length]. lia.
-  - inversion Hrev; subst. exists []. rewrite app_nil_r. rewrite Ev. cbn [iprio ival sprio sval].
-    split; [reflexivity|]. split; [split; reflexivity|]. intros t Ht. congruence.
+  intros ths0 e rid kin keys f ths' f' Hok Hinc Hrev. unfold revert_fld in Hrev.
+  destruct (revert_val RevFresh (ths0 ++ e) (ival f)) as [ths1 v] eqn:E1.
+  destruct (revert_ctrs RevFresh ths1 (ictrs f)) as [ths2 cs] eqn:E2. inversion Hrev; subst. clear Hrev.
+  destruct (revert_val_ok _ _ _ _ _ _ _ _ (fun tid E => fld_ok_val _ _ _ _ _ Hok E) Hinc E1) as (e1 & -> & Hv & Hf1).
+  rewrite <- app_assoc in E2.
+  destruct (revert_ctrs_ok _ _ _ _ _ _ _ _ (fun kc H => fld_ok_ctr _ _ _ _ _ Hok H) Hinc E2) as (e2 & -> & Hc & Hf2).
+  exists (e1 ++ e2). split; [rewrite !app_assoc; reflexivity|]. split.
+  - split; [reflexivity|]. cbn [ival ictrs abs_fld sval sctrs]. split; [|exact Hc].
+    apply val_ok_app. rewrite app_assoc. exact Hv.
+  - unfold ftids. cbn [ival ictrs].
+    eapply fresh_seq_app; [exact Hf1 | rewrite <- app_assoc; exact Hf2 | |]; rewrite !app_length; lia.
 Qed.
 
-(* ---- state-threading maps over the fields of a record (revert_all, merge_all) *)
+(* ---- state-threading maps over the fields of a record (revert_all, merge_all, alloc_lit) *)
 Section Thread.
   Variable X : Type.
   Variable step : list thunk -> X -> list thunk * ifld.
@@ -174,47 +343,32 @@ Section Thread.
     split; [exact H1 | apply out_ok_app; exact H2].
   Qed.
 
-  Definition all_fresh_in (lo hi : nat) (r : irec) : Prop :=
-    forall k f, In (k, f) r -> fresh_in (length ths0) lo hi f.
-
   Hypothesis step_ok : forall e x ths' f',
     P x -> step (ths0 ++ e) x = (ths', f') ->
     exists e', ths' = (ths0 ++ e) ++ e' /\
                out_ok (length ths0) keys ths' (tgt x) f' /\
-               fresh_in (length ths0) (length (ths0 ++ e)) (length ths') f'.
+               fresh_seq (length ths0) (length (ths0 ++ e)) (length ths') (ftids f').
 
   Lemma thread_ok : forall L e ths' L',
     (forall k x, In (k, x) L -> P x) ->
     thread (ths0 ++ e) L = (ths', L') ->
     exists e', ths' = (ths0 ++ e) ++ e' /\
                Forall2 (fld_rel ths') L L' /\
-               all_fresh_in (length (ths0 ++ e)) (length ths') L' /\
-               NoDup (filter (fun t => length ths0 <=? t) (tids L')).
+               fresh_seq (length ths0) (length (ths0 ++ e)) (length ths') (tids L').
   Proof.
     induction L as [|[k x] L IH]; intros e ths' L' HP Hrun; cbn [thread] in Hrun.
     - inversion Hrun; subst. exists []. rewrite app_nil_r.
-      split; [reflexivity|]. split; [constructor|]. split; [intros k0 f0 []|constructor].
+      split; [reflexivity|]. split; [constructor | apply fresh_seq_nil].
     - destruct (step (ths0 ++ e) x) as [ths1 f1] eqn:E1.
       destruct (thread ths1 L) as [ths2 L2] eqn:E2. inversion Hrun; subst. clear Hrun.
       destruct (step_ok _ _ _ _ (HP k x (or_introl eq_refl)) E1) as (e1 & -> & Ho1 & Hf1).
       rewrite <- app_assoc in E2.
-      destruct (IH (e ++ e1) ths' L2 (fun k' x' H => HP k' x' (or_intror H)) E2) as (e2 & -> & HF & Hfr & Hnd).
-      exists (e1 ++ e2). split; [rewrite !app_assoc; reflexivity|]. split; [|split].
+      destruct (IH (e ++ e1) ths' L2 (fun k' x' H => HP k' x' (or_intror H)) E2) as (e2 & -> & HF & Hfr).
+      exists (e1 ++ e2). split; [rewrite !app_assoc; reflexivity|]. split.
       + constructor; [|exact HF]. split; [reflexivity|]. cbn [snd].
         apply out_ok_app. rewrite app_assoc. exact Ho1.
-      + intros k' f' [E|Hin].
-        * inversion E; subst. intros t Ht Hge. specialize (Hf1 t Ht Hge). rewrite !app_length in *. lia.
-        * intros t Ht Hge. specialize (Hfr k' f' Hin t Ht Hge). rewrite !app_length in *. lia.
-      + cbn [tids flat_map snd]. fold (tids L2). rewrite filter_app. apply NoDup_app_disj; [| exact Hnd |].
-        * destruct (ival f1) as [t|]; cbn [filter]; [|constructor].
-          destruct (length ths0 <=? t); [|constructor]. constructor; [intros []|constructor].
-        * intros t H1 H2. apply filter_In in H1. apply filter_In in H2.
-          destruct H1 as [H1 Hge], H2 as [H2 _]. apply Nat.leb_le in Hge.
-          destruct (ival f1) as [t1|] eqn:Ev; [|destruct H1]. destruct H1 as [->|[]].
-          specialize (Hf1 t Ev Hge).
-          unfold tids in H2. apply in_flat_map in H2. destruct H2 as [[k' f'] [Hin Ht]]. cbn [snd] in Ht.
-          destruct (ival f') as [t'|] eqn:Ev'; [|destruct Ht]. destruct Ht as [->|[]].
-          specialize (Hfr k' f' Hin t Ev' Hge). rewrite !app_length in *. lia.
+      + cbn [tids flat_map snd]. fold (tids L2).
+        eapply fresh_seq_app; [exact Hf1 | rewrite <- app_assoc; exact Hfr | |]; rewrite !app_length; lia.
   Qed.
 End Thread.
 
@@ -232,13 +386,6 @@ Proof.
 Qed.
 
 (* ---- saturate and merge_fields *)
-Lemma abs_fld_some : forall ths f tid th,
-  ival f = Some tid -> nth_error ths tid = Some th -> sval (abs_fld ths f) = Some (abs_thunk th).
-Proof. intros ths f tid th H1 H2. unfold abs_fld. cbn [sval]. rewrite H1, H2. reflexivity. Qed.
-
-Lemma abs_fld_none : forall ths f, ival f = None -> sval (abs_fld ths f) = None.
-Proof. intros ths f H. unfold abs_fld. cbn [sval]. rewrite H. reflexivity. Qed.
-
 Lemma mk_thunk_pre : forall n0 keys tid b d,
   n0 <= tid -> wf_body d b -> incl d keys -> pre_thunk n0 keys tid (mk_thunk b (Some d)).
 Proof.
@@ -270,23 +417,23 @@ Proof.
       apply mem_In in E. apply Hd, Hinc in E. apply mem_In in E. rewrite E. reflexivity.
 Qed.
 
-Lemma merge_fld_ok : forall c ths0 e rid1 rid2 k1 k2 names f1 f2 ths' f',
+(* the value part of merge_fields *)
+Lemma merge_val_ok : forall c ths0 e rid1 rid2 k1 k2 names f1 f2 ths' p v,
   c_revert c = RevFresh ->
   fld_ok ths0 rid1 k1 f1 -> fld_ok ths0 rid2 k2 f2 -> incl k1 names -> incl k2 names ->
-  merge_fld c names (ths0 ++ e) f1 f2 = (ths', f') ->
-  exists e', ths' = (ths0 ++ e) ++ e' /\
-             out_ok (length ths0) names ths' (smerge_fld (abs_fld ths0 f1) (abs_fld ths0 f2)) f' /\
-             fresh_in (length ths0) (length (ths0 ++ e)) (length ths') f'.
+  merge_val c names (ths0 ++ e) f1 f2 = (ths', (p, v)) ->
+  let tg := smerge_fld (abs_fld ths0 f1) (abs_fld ths0 f2) in
+  exists e', ths' = (ths0 ++ e) ++ e' /\ p = sprio tg /\
+             val_ok (length ths0) names ths' v (sval tg) /\
+             fresh_seq (length ths0) (length (ths0 ++ e)) (length ths') (match v with Some t => [t] | None => [] end).
 Proof.
-  intros c ths0 e rid1 rid2 k1 k2 names f1 f2 ths' f' Hrev Hok1 Hok2 Hi1 Hi2 Hm.
-  unfold merge_fld in Hm. rewrite Hrev in Hm. unfold smerge_fld.
-  pose proof Hok1 as Hok1'. pose proof Hok2 as Hok2'. unfold fld_ok in Hok1', Hok2'.
-  destruct (ival f1) as [t1|] eqn:Ev1; destruct (ival f2) as [t2|] eqn:Ev2.
-  - destruct Hok1' as (th1 & Hth1 & Htok1). destruct Hok2' as (th2 & Hth2 & Htok2).
-    rewrite (abs_fld_some _ _ _ _ Ev1 Hth1), (abs_fld_some _ _ _ _ Ev2 Hth2).
-    change (sprio (abs_fld ths0 f1)) with (iprio f1). change (sprio (abs_fld ths0 f2)) with (iprio f2).
-    destruct (pcmp (iprio f1) (iprio f2)) eqn:Ec.
+  intros c ths0 e rid1 rid2 k1 k2 names f1 f2 ths' p v Hrev Hok1 Hok2 Hi1 Hi2 Hm. cbv zeta.
+  unfold merge_val in Hm. rewrite Hrev in Hm. unfold smerge_fld. cbn [abs_fld sval sprio].
+  destruct (ival f1) as [t1|] eqn:Ev1; destruct (ival f2) as [t2|] eqn:Ev2; cbn [option_map].
+  - destruct (pcmp (iprio f1) (iprio f2)) eqn:Ec; cbn [sprio sval].
     + (* equal priorities: fields_merge_closurize *)
+      destruct (fld_ok_val _ _ _ _ _ Hok1 Ev1) as (th1 & Hth1 & Htok1).
+      destruct (fld_ok_val _ _ _ _ _ Hok2 Ev2) as (th2 & Hth2 & Htok2).
       destruct (saturate_ok ths0 e rid1 k1 names t1 th1 Hth1 Htok1 Hi1) as (b1 & d1' & d1 & Hs1 & Hd1 & Hk1 & Hsub1 & Hw1 & Hsim1).
       destruct (saturate_ok ths0 e rid2 k2 names t2 th2 Hth2 Htok2 Hi2) as (b2 & d2' & d2 & Hs2 & Hd2 & Hk2 & Hsub2 & Hw2 & Hsim2).
       rewrite Hs1, Hs2, Hd1, Hd2 in Hm. cbn [union_deps] in Hm. inversion Hm; subst. clear Hm.
@@ -298,26 +445,68 @@ Proof.
       assert (HUn : incl U names).
       { intros x Hx. apply in_app_or in Hx. destruct Hx as [Hx|Hx]; [apply Hi1, Hk1, Hx|].
         apply filter_In in Hx. apply Hi2, Hk2. tauto. }
-      exists [mk_thunk (BMerge b1 d1' b2 d2') (Some U)]. split; [reflexivity|].
-      split; [split; [reflexivity|]|].
-      * cbn [ival]. exists (mk_thunk (BMerge b1 d1' b2 d2') (Some U)), (SMerge2 (abs_thunk th1) (abs_thunk th2)).
-        rewrite nth_error_app2 by lia. rewrite Nat.sub_diag. cbn [nth_error].
-        split; [reflexivity|]. split; [|split; [reflexivity|]].
+      exists [mk_thunk (BMerge b1 d1' b2 d2') (Some U)]. split; [reflexivity|]. split; [reflexivity|]. split.
+      * cbn [val_ok]. exists (mk_thunk (BMerge b1 d1' b2 d2') (Some U)).
+        rewrite nth_error_app2 by lia. rewrite Nat.sub_diag. split; [reflexivity|]. split.
         -- apply mk_thunk_pre; [rewrite app_length; lia | | exact HUn].
            cbn [wf_body]. repeat split; try assumption; eapply incl_tran; eassumption.
-        -- rewrite mk_thunk_abs. cbn [abs_body]. constructor; assumption.
-      * intros t Ht _. cbn [ival] in Ht. inversion Ht; subst. rewrite !app_length. cbn [length]. lia.
+        -- rewrite mk_thunk_abs. cbn [abs_body]. unfold abs_tid. rewrite Hth1, Hth2. constructor; assumption.
+      * apply fresh_seq_one. rewrite !app_length. cbn [length]. lia.
     + (* the right side wins *)
-      destruct (revert_fld_ok _ _ _ _ _ _ _ _ Hok2 Hi2 Hm) as (e' & -> & Ho & Hf). exists e'. split; [reflexivity|]. split; assumption.
-    + destruct (revert_fld_ok _ _ _ _ _ _ _ _ Hok1 Hi1 Hm) as (e' & -> & Ho & Hf). exists e'. split; [reflexivity|]. split; assumption.
-  - destruct Hok1' as (th1 & Hth1 & Htok1).
-    rewrite (abs_fld_some _ _ _ _ Ev1 Hth1), (abs_fld_none _ _ Ev2).
-    destruct (revert_fld_ok _ _ _ _ _ _ _ _ Hok1 Hi1 Hm) as (e' & -> & Ho & Hf). exists e'. split; [reflexivity|]. split; assumption.
-  - destruct Hok2' as (th2 & Hth2 & Htok2).
-    rewrite (abs_fld_none _ _ Ev1), (abs_fld_some _ _ _ _ Ev2 Hth2).
-    destruct (revert_fld_ok _ _ _ _ _ _ _ _ Hok2 Hi2 Hm) as (e' & -> & Ho & Hf). exists e'. split; [reflexivity|]. split; assumption.
-  - rewrite (abs_fld_none _ _ Ev1), (abs_fld_none _ _ Ev2). inversion Hm; subst. exists []. rewrite app_nil_r.
-    split; [reflexivity|]. split; [split; reflexivity|]. intros t Ht. cbn [ival] in Ht. discriminate.
+      destruct (revert_val RevFresh (ths0 ++ e) (Some t2)) as [ths1 v1] eqn:E1. inversion Hm; subst.
+      destruct (revert_val_ok _ _ _ _ _ _ _ _
+                  (fun tid E => fld_ok_val _ _ _ _ _ Hok2 (eq_trans Ev2 E)) Hi2 E1) as (e' & -> & Hv & Hf).
+      exists e'. split; [reflexivity|]. split; [reflexivity|]. split; assumption.
+    + destruct (revert_val RevFresh (ths0 ++ e) (Some t1)) as [ths1 v1] eqn:E1. inversion Hm; subst.
+ destruct (revert_val_ok _ _ _ _ _ _ _ _
+             (fun tid E => fld_ok_val _ _ _ _ _ Hok1 (eq_trans Ev1 E)) Hi1 E1) as (e' & -> & Hv & Hf).
+ exists e'. split; [reflexivity|]. split; [reflexivity|]. split; assumption.
+  - destruct (revert_val RevFresh (ths0 ++ e) (Some t1)) as [ths1 v1] eqn:E1. inversion Hm; subst.
+ destruct (revert_val_ok _ _ _ _ _ _ _ _
+             (fun tid E => fld_ok_val _ _ _ _ _ Hok1 (eq_trans Ev1 E)) Hi1 E1) as (e' & -> & Hv & Hf).
+ exists e'. split; [reflexivity|]. split; [reflexivity|]. split; assumption.
+  - destruct (revert_val RevFresh (ths0 ++ e) (Some t2)) as [ths1 v1] eqn:E1. inversion Hm; subst.
+ destruct (revert_val_ok _ _ _ _ _ _ _ _
+             (fun tid E => fld_ok_val _ _ _ _ _ Hok2 (eq_trans Ev2 E)) Hi2 E1) as (e' & -> & Hv & Hf).
+ exists e'. split; [reflexivity|]. split; [reflexivity|]. split; assumption.
+  - inversion Hm; subst. exists []. rewrite app_nil_r. split; [reflexivity|]. split; [reflexivity|].
+    split; [exact I | apply fresh_seq_nil].
+Qed.
+
+Lemma smerge_fld_ctrs : forall f1 f2, sctrs (smerge_fld f1 f2) = sctrs f1 ++ sctrs f2.
+Proof.
+  intros f1 f2. unfold smerge_fld. destruct (sval f1), (sval f2); try reflexivity.
+  destruct (pcmp (sprio f1) (sprio f2)); reflexivity.
+Qed.
+
+Lemma merge_fld_ok : forall c ths0 e rid1 rid2 k1 k2 names f1 f2 ths' f',
+  c_revert c = RevFresh ->
+  fld_ok ths0 rid1 k1 f1 -> fld_ok ths0 rid2 k2 f2 -> incl k1 names -> incl k2 names ->
+  merge_fld c names (ths0 ++ e) f1 f2 = (ths', f') ->
+  exists e', ths' = (ths0 ++ e) ++ e' /\
+             out_ok (length ths0) names ths' (smerge_fld (abs_fld ths0 f1) (abs_fld ths0 f2)) f' /\
+             fresh_seq (length ths0) (length (ths0 ++ e)) (length ths') (ftids f').
+Proof.
+  intros c ths0 e rid1 rid2 k1 k2 names f1 f2 ths' f' Hrev Hok1 Hok2 Hi1 Hi2 Hm. unfold merge_fld in Hm.
+  destruct (merge_val c names (ths0 ++ e) f1 f2) as [ths1 [p v]] eqn:E0.
+  rewrite Hrev in Hm.
+  destruct (revert_ctrs RevFresh ths1 (ictrs f1)) as [ths2 cs1] eqn:E1.
+  destruct (revert_ctrs RevFresh ths2 (ictrs f2)) as [ths3 cs2] eqn:E2. inversion Hm; subst. clear Hm.
+  destruct (merge_val_ok _ _ _ _ _ _ _ _ _ _ _ _ _ Hrev Hok1 Hok2 Hi1 Hi2 E0) as (e0 & -> & Hp & Hv & Hf0).
+  rewrite <- app_assoc in E1.
+  destruct (revert_ctrs_ok _ _ _ _ _ _ _ _ (fun kc H => fld_ok_ctr _ _ _ _ _ Hok1 H) Hi1 E1) as (e1 & -> & Hc1 & Hf1).
+  rewrite <- app_assoc in E2.
+  destruct (revert_ctrs_ok _ _ _ _ _ _ _ _ (fun kc H => fld_ok_ctr _ _ _ _ _ Hok2 H) Hi2 E2) as (e2 & -> & Hc2 & Hf2).
+  exists (e0 ++ e1 ++ e2). split; [rewrite !app_assoc; reflexivity|]. split.
+  - split; [cbn [iprio fst]; exact Hp|]. cbn [ival ictrs snd]. split.
+    + eapply val_ok_prefix; [|exact Hv]. solve_prefix.
+    + rewrite smerge_fld_ctrs. cbn [abs_fld sctrs]. apply Forall2_app.
+      * eapply ctrs_ok_prefix; [|exact Hc1]. solve_prefix.
+      * eapply ctrs_ok_prefix; [|exact Hc2]. solve_prefix.
+  - unfold ftids. cbn [ival ictrs snd]. rewrite map_app.
+    assert (Hf12 : fresh_seq (length ths0) (length ((ths0 ++ e) ++ e0)) (length (ths0 ++ e ++ e0 ++ e1 ++ e2)) (map snd cs1 ++ map snd cs2))
+      by (fs_app Hf1 Hf2).
+    fs_app Hf0 Hf12.
 Qed.
 
 (* ------------------------------------------------------------------------- phase 2: patching *)
@@ -345,63 +534,61 @@ Proof.
   - reflexivity.
 Qed.
 
-Definition pre_fld (n0 : nat) (keys : list N) (ths : list thunk) (f : ifld) : Prop :=
-  match ival f with
-  | None => True
-  | Some tid => exists th, nth_error ths tid = Some th /\ pre_thunk n0 keys tid th
-  end.
 
-Lemma out_ok_pre_fld : forall n0 keys ths tgt f, out_ok n0 keys ths tgt f -> pre_fld n0 keys ths f.
+Lemma patch_tids_ok : forall rid n0 keys ts ths,
+  (forall tid, In tid ts -> pre_tid n0 keys ths tid) ->
+  NoDup (filter (isfresh n0) ts) ->
+  exists ths', patch_tids PAssert rid ths ts = Some ths' /\ length ths' = length ths /\
+    forall i, nth_error ths' i
+              = option_map (fun th => if in_nat i ts then patch1 rid th else th) (nth_error ths i).
 Proof.
-  intros n0 keys ths tgt f [_ H]. unfold pre_fld. destruct (ival f) as [tid|]; [|exact I].
-  destruct H as (th & sb & Hth & Hpre & _). exists th. split; assumption.
+  intros rid n0 keys. induction ts as [|tid ts IH]; intros ths Hpre Hnd.
+  - exists ths. split; [reflexivity|]. split; [reflexivity|]. intros i. destruct (nth_error ths i); reflexivity.
+  - cbn [patch_tids]. destruct (Hpre tid (or_introl eq_refl)) as (th & Hth & Hpt). rewrite Hth.
+    destruct th as [b|o [d|] [c|]]; cbn [pre_thunk] in Hpt; try contradiction.
+    + (* standard thunk: nothing to do *)
+      cbn [patch_thunk]. rewrite (set_nth_same _ _ _ _ Hth).
+      assert (Hnd' : NoDup (filter (isfresh n0) ts)).
+      { cbn [filter] in Hnd. destruct (isfresh n0 tid); [inversion Hnd; assumption | exact Hnd]. }
+      destruct (IH ths (fun t H => Hpre t (or_intror H)) Hnd') as (ths' & Hp & Hlen & Hnth).
+      exists ths'. split; [exact Hp|]. split; [exact Hlen|]. intros i. rewrite Hnth.
+      unfold in_nat at 2. cbn [existsb]. fold (in_nat i ts).
+      destruct (Nat.eqb i tid) eqn:E; [|reflexivity]. apply Nat.eqb_eq in E. subst i. rewrite Hth.
+      cbn [option_map orb]. destruct (in_nat tid ts); reflexivity.
+    + (* fresh revertible thunk: set its cached value *)
+      destruct Hpt as (Hge & Hwf & Hd). cbn [patch_thunk].
+      assert (Hfil : filter (isfresh n0) (tid :: ts) = tid :: filter (isfresh n0) ts).
+      { cbn [filter]. unfold isfresh at 1. apply Nat.leb_le in Hge. rewrite Hge. reflexivity. }
+      rewrite Hfil in Hnd. inversion Hnd as [|? ? Hni Hnd']; subst.
+      assert (Hni' : ~ In tid ts).
+      { intros H. apply Hni. apply filter_In. split; [exact H | apply Nat.leb_le; exact Hge]. }
+      set (ths1 := set_nth tid (Rev o (Some d) (Some rid)) ths).
+      assert (Hpre1 : forall t, In t ts -> pre_tid n0 keys ths1 t).
+      { intros t Hin. destruct (Hpre t (or_intror Hin)) as (th' & Hth' & Hpt').
+        exists th'. split; [|exact Hpt']. unfold ths1. rewrite nth_error_set_nth_neq; [exact Hth'|].
+        intros ->. contradiction. }
+      destruct (IH ths1 Hpre1 Hnd') as (ths' & Hp & Hlen & Hnth).
+      exists ths'. split; [exact Hp|]. split; [rewrite Hlen; apply length_set_nth|]. intros i. rewrite Hnth.
+      unfold in_nat at 2. cbn [existsb]. fold (in_nat i ts).
+      destruct (Nat.eqb i tid) eqn:E.
+      * apply Nat.eqb_eq in E. subst i. unfold ths1. rewrite (nth_error_set_nth_eq _ _ _ _ _ Hth), Hth.
+        cbn [option_map orb]. apply in_nat_false in Hni'. rewrite Hni'. reflexivity.
+      * apply Nat.eqb_neq in E. unfold ths1. rewrite nth_error_set_nth_neq by congruence. reflexivity.
 Qed.
 
-Lemma patch_all_ok : forall rid n0 keys outs ths,
-  (forall k f, In (k, f) outs -> pre_fld n0 keys ths f) ->
-  NoDup (filter (fun t => n0 <=? t) (tids outs)) ->
-  exists ths', patch_all PAssert rid ths outs = Some ths' /\ length ths' = length ths /\
-    forall i, nth_error ths' i
-              = option_map (fun th => if in_nat i (tids outs) then patch1 rid th else th) (nth_error ths i).
+Lemma patch_prefix : forall rid n0 keys ts ths3 ths4,
+  (forall i, nth_error ths4 i
+             = option_map (fun th => if in_nat i ts then patch1 rid th else th) (nth_error ths3 i)) ->
+  (forall tid, In tid ts -> pre_tid n0 keys ths3 tid) ->
+  forall i, i < n0 -> nth_error ths4 i = nth_error ths3 i.
 Proof.
-  intros rid n0 keys. induction outs as [|[k f] outs IH]; intros ths Hpre Hnd.
-  - exists ths. split; [reflexivity|]. split; [reflexivity|]. intros i. destruct (nth_error ths i); reflexivity.
-  - cbn [patch_all]. pose proof (Hpre k f (or_introl eq_refl)) as Hf. unfold pre_fld in Hf.
-    cbn [tids flat_map snd] in *. fold (tids outs) in *.
-    destruct (ival f) as [tid|] eqn:Ev.
-    + destruct Hf as (th & Hth & Hpt). rewrite Hth.
-      destruct th as [b|o [d|] [c|]]; cbn [pre_thunk] in Hpt; try contradiction.
-      * (* standard thunk: nothing to do *)
-        cbn [patch_thunk]. rewrite (set_nth_same _ _ _ _ Hth).
-        assert (Hnd' : NoDup (filter (fun t => n0 <=? t) (tids outs))).
-        { cbn [app filter] in Hnd. destruct (n0 <=? tid); [inversion Hnd; assumption | exact Hnd]. }
-        destruct (IH ths (fun k' f' H => Hpre k' f' (or_intror H)) Hnd') as (ths' & Hp & Hlen & Hnth).
-        exists ths'. split; [exact Hp|]. split; [exact Hlen|]. intros i. rewrite Hnth.
-        cbn [app]. unfold in_nat at 2. cbn [existsb]. fold (in_nat i (tids outs)).
-        destruct (Nat.eqb i tid) eqn:E; [|reflexivity]. apply Nat.eqb_eq in E. subst i. rewrite Hth.
-        cbn [option_map orb]. destruct (in_nat tid (tids outs)); reflexivity.
-      * (* fresh revertible thunk: set its cached value *)
-        destruct Hpt as (Hge & Hwf & Hd). cbn [patch_thunk].
-        assert (Hfil : filter (fun t => n0 <=? t) ([tid] ++ tids outs) = tid :: filter (fun t => n0 <=? t) (tids outs)).
-        { cbn [app filter]. apply Nat.leb_le in Hge. rewrite Hge. reflexivity. }
-        rewrite Hfil in Hnd. inversion Hnd as [|? ? Hni Hnd']; subst.
-        assert (Hni' : ~ In tid (tids outs)).
-        { intros H. apply Hni. apply filter_In. split; [exact H | apply Nat.leb_le; exact Hge]. }
-        set (ths1 := set_nth tid (Rev o (Some d) (Some rid)) ths).
-        assert (Hpre1 : forall k' f', In (k', f') outs -> pre_fld n0 keys ths1 f').
-        { intros k' f' Hin. specialize (Hpre k' f' (or_intror Hin)). unfold pre_fld in *.
-          destruct (ival f') as [t'|] eqn:Ev'; [|exact I]. destruct Hpre as (th' & Hth' & Hpt').
-          exists th'. split; [|exact Hpt']. unfold ths1. rewrite nth_error_set_nth_neq; [exact Hth'|].
-          intros ->. apply Hni'. unfold tids. apply in_flat_map. exists (k', f'). split; [exact Hin|].
-          cbn [snd]. rewrite Ev'. left. reflexivity. }
-        destruct (IH ths1 Hpre1 Hnd') as (ths' & Hp & Hlen & Hnth).
-        exists ths'. split; [exact Hp|]. split; [rewrite Hlen; apply length_set_nth|]. intros i. rewrite Hnth.
-        cbn [app]. unfold in_nat at 2. cbn [existsb]. fold (in_nat i (tids outs)).
-        destruct (Nat.eqb i tid) eqn:E.
-        -- apply Nat.eqb_eq in E. subst i. unfold ths1. rewrite (nth_error_set_nth_eq _ _ _ _ _ Hth), Hth.
-           cbn [option_map orb]. apply in_nat_false in Hni'. rewrite Hni'. reflexivity.
-        -- apply Nat.eqb_neq in E. unfold ths1. rewrite nth_error_set_nth_neq by congruence. reflexivity.
-    + cbn [app] in *. apply IH; [|exact Hnd]. intros k' f' H. apply (Hpre k' f'). right. exact H.
+  intros rid n0 keys ts ths3 ths4 Hnth Hpre i Hi. rewrite Hnth.
+  destruct (nth_error ths3 i) as [th|] eqn:Eth; [|reflexivity]. cbn [option_map].
+  destruct (in_nat i ts) eqn:Em; [|reflexivity].
+  apply in_nat_In in Em. destruct (Hpre i Em) as (th' & Hth' & Hpt).
+  rewrite Eth in Hth'. inversion Hth'; subst th'.
+  destruct th as [b|o [d|] [c|]]; cbn [pre_thunk] in Hpt; try contradiction; [reflexivity|].
+  destruct Hpt as (Hge & _). lia.
 Qed.
 
 (* ------------------------------------------------------------------------- lookups through split *)
@@ -525,19 +712,31 @@ Lemma extends_rec : forall st st' rid r,
   extends st st' -> nth_error (recs st) rid = Some r -> nth_error (recs st') rid = Some r.
 Proof. intros st st' rid r [[rs H] _] Hr. rewrite H. apply nth_error_app_l. exact Hr. Qed.
 
-Lemma extends_fld_ok : forall st st' rid keys f,
-  extends st st' -> fld_ok (thunks st) rid keys f -> fld_ok (thunks st') rid keys f.
+
+Lemma extends_tid_ok : forall st st' rid keys tid,
+  extends st st' -> tid_ok (thunks st) rid keys tid -> tid_ok (thunks st') rid keys tid.
 Proof.
-  intros st st' rid keys f [_ H] Hok. unfold fld_ok in *. destruct (ival f) as [tid|]; [|exact I].
-  destruct Hok as (th & Hth & Htok). exists th. split; [|exact Htok]. rewrite H; [exact Hth|].
+  intros st st' rid keys tid [_ H] (th & Hth & Htok). exists th. split; [|exact Htok]. rewrite H; [exact Hth|].
   apply nth_error_Some. congruence.
 Qed.
+
+Lemma extends_abs_tid : forall st st' rid keys tid,
+  extends st st' -> tid_ok (thunks st) rid keys tid -> abs_tid (thunks st') tid = abs_tid (thunks st) tid.
+Proof.
+  intros st st' rid keys tid [_ H] (th & Hth & _). unfold abs_tid. rewrite H; [reflexivity|]. apply nth_error_Some. congruence.
+Qed.
+
+Lemma extends_fld_ok : forall st st' rid keys f,
+  extends st st' -> fld_ok (thunks st) rid keys f -> fld_ok (thunks st') rid keys f.
+Proof. intros st st' rid keys f Hext Hok tid Hin. eapply extends_tid_ok; [exact Hext | apply Hok; exact Hin]. Qed.
 
 Lemma extends_abs_fld : forall st st' rid keys f,
   extends st st' -> fld_ok (thunks st) rid keys f -> abs_fld (thunks st') f = abs_fld (thunks st) f.
 Proof.
-  intros st st' rid keys f [_ H] Hok. unfold fld_ok in Hok. unfold abs_fld. destruct (ival f) as [tid|]; [|reflexivity].
-  destruct Hok as (th & Hth & _). rewrite H; [reflexivity|]. apply nth_error_Some. congruence.
+  intros st st' rid keys f Hext Hok. unfold abs_fld. f_equal.
+  - destruct (ival f) as [tid|] eqn:Ev; [|reflexivity]. cbn [option_map]. f_equal.
+    eapply extends_abs_tid; [exact Hext | eapply fld_ok_val; eassumption].
+  - apply map_ext_in. intros kc Hin. f_equal. eapply extends_abs_tid; [exact Hext | eapply fld_ok_ctr; eassumption].
 Qed.
 
 (* existing record instances are not affected by what happens later *)
@@ -555,24 +754,57 @@ Qed.
 Lemma abs_thunk_patch1 : forall rid th, abs_thunk (patch1 rid th) = abs_thunk th.
 Proof. intros rid [b|o [d|] [c|]]; reflexivity. Qed.
 
+(* a thunk of the new record after patching *)
+Lemma slot_patched : forall n0 keys ths3 ths4 rid ts tid sb,
+  (forall i, nth_error ths4 i
+             = option_map (fun th => if in_nat i ts then patch1 rid th else th) (nth_error ths3 i)) ->
+  In tid ts -> slot_ok n0 keys ths3 tid sb ->
+  sb_sim (abs_tid ths4 tid) sb /\ tid_ok ths4 rid keys tid.
+Proof.
+  intros n0 keys ths3 ths4 rid ts tid sb Hnth Hin (th & Hth & Hpre & Hsim).
+  apply in_nat_In in Hin. unfold abs_tid, tid_ok. rewrite Hnth, Hth. cbn [option_map]. rewrite Hin. split.
+  - rewrite abs_thunk_patch1. exact Hsim.
+  - exists (patch1 rid th). split; [reflexivity|].
+    destruct th as [b|o [d|] [c|]]; cbn [pre_thunk] in Hpre; try contradiction; cbn [patch1 thunk_ok].
+    + exact Hpre.
+    + destruct Hpre as (_ & Hwf & Hd). repeat split; assumption.
+Qed.
+
 Lemma out_ok_patched : forall n0 keys ths3 ths4 rid outs tgt k f,
   (forall i, nth_error ths4 i
              = option_map (fun th => if in_nat i (tids outs) then patch1 rid th else th) (nth_error ths3 i)) ->
   In (k, f) outs -> out_ok n0 keys ths3 tgt f ->
   sfld_sim (abs_fld ths4 f) tgt /\ fld_ok ths4 rid keys f.
 Proof.
-  intros n0 keys ths3 ths4 rid outs tgt k f Hnth Hin [Hp Hv]. unfold sfld_sim, fld_ok, abs_fld. cbn [sprio sval].
-  destruct (ival f) as [tid|] eqn:Ev.
-  - destruct Hv as (th & sb & Hth & Hpre & Htgt & Hsim).
-    assert (Hmem : in_nat tid (tids outs) = true).
-    { apply in_nat_In. unfold tids. apply in_flat_map. exists (k, f). split; [exact Hin|]. cbn [snd]. rewrite Ev. left. reflexivity. }
-    rewrite Hnth, Hth. cbn [option_map]. rewrite Hmem. split; [split; [exact Hp|]|].
-    + rewrite Htgt. cbn [osb_sim]. rewrite abs_thunk_patch1. exact Hsim.
-    + exists (patch1 rid th). split; [reflexivity|].
-      destruct th as [b|o [d|] [c|]]; cbn [pre_thunk] in Hpre; try contradiction; cbn [patch1 thunk_ok].
-      * exact Hpre.
-      * destruct Hpre as (_ & Hwf & Hd). repeat split; assumption.
-  - split; [|exact I]. split; [exact Hp|]. rewrite Hv. exact I.
+  intros n0 keys ths3 ths4 rid outs tgt k f Hnth Hin (Hp & Hv & Hc).
+  assert (Hsub : forall tid, In tid (ftids f) -> In tid (tids outs)).
+  { intros tid Ht. unfold tids. apply in_flat_map. exists (k, f). split; [exact Hin | exact Ht]. }
+  assert (Hval : forall tid sb, ival f = Some tid -> sval tgt = Some sb ->
+                 sb_sim (abs_tid ths4 tid) sb /\ tid_ok ths4 rid keys tid).
+  { intros tid sb Ev Es. rewrite Ev, Es in Hv. cbn [val_ok] in Hv.
+    apply (slot_patched n0 keys ths3 ths4 rid (tids outs) tid sb Hnth); [|exact Hv].
+    apply Hsub. unfold ftids. rewrite Ev. left. reflexivity. }
+  assert (Hctr : Forall2 (fun kc ks => fst kc = fst ks /\ sb_sim (abs_tid ths4 (snd kc)) (snd ks) /\ tid_ok ths4 rid keys (snd kc))
+                         (ictrs f) (sctrs tgt)).
+  { assert (Hsubc : forall kc, In kc (ictrs f) -> In (snd kc) (tids outs)).
+    { intros kc Hkc. apply Hsub. unfold ftids. apply in_or_app. right. apply in_map. exact Hkc. }
+    clear Hv Hval. induction Hc as [|a b l l' [H1 H2] _ IH]; constructor.
+    - split; [exact H1|]. apply (slot_patched n0 keys ths3 ths4 rid (tids outs) (snd a) (snd b) Hnth); [|exact H2].
+      apply Hsubc. left. reflexivity.
+    - apply IH. intros kc Hkc. apply Hsubc. right. exact Hkc. }
+  split.
+  - split; [exact Hp|]. cbn [abs_fld sval sctrs]. split.
+    + destruct (ival f) as [tid|] eqn:Ev; destruct (sval tgt) as [sb|] eqn:Es; cbn [val_ok] in Hv; try contradiction; cbn [option_map osb_sim]; [|exact I].
+      exact (proj1 (Hval tid sb eq_refl eq_refl)).
+    + unfold ctrs_sim. clear Hc. induction Hctr as [|a b l l' (H1 & H2 & _) _ IH]; cbn [map]; constructor; [|exact IH].
+      split; [exact H1 | exact H2].
+  - intros tid Ht. unfold ftids in Ht. apply in_app_or in Ht. destruct Ht as [Ht|Ht].
+    + destruct (ival f) as [t|] eqn:Ev; [|destruct Ht]. destruct Ht as [->|[]].
+      destruct (sval tgt) as [sb|] eqn:Es; cbn [val_ok] in Hv; [|contradiction].
+      exact (proj2 (Hval tid sb eq_refl eq_refl)).
+    + apply in_map_iff in Ht. destruct Ht as [[kk t] [E Hkc]]. cbn [snd] in E. subst t.
+      clear Hc. induction Hctr as [|a b l l' (_ & _ & H3) _ IH]; [destruct Hkc|].
+      destruct Hkc as [->|Hkc]; [exact H3 | apply IH; exact Hkc].
 Qed.
 
 Lemma incl_keys_names_l : forall r1 r2,
@@ -616,13 +848,13 @@ Proof.
   rewrite <- (app_nil_r ths0) in E1.
   destruct (thread_ok ifld (revert_fld RevFresh) (abs_fld ths0) ths0 names (fun f => fld_ok ths0 rid1 (ikeys r1) f)
               (fun e x ths' f' HP Hs => revert_fld_ok ths0 e rid1 (ikeys r1) names x ths' f' HP Hin1 Hs)
-              L [] ths1 L') as (e1 & -> & HF1 & Hfr1 & HndL); [|exact E1|].
+              L [] ths1 L') as (e1 & -> & HF1 & Hfr1); [|exact E1|].
   { intros k f Hin. apply (Hok1 k f). unfold L, split_left in Hin. apply filter_In in Hin. tauto. }
   rewrite (revert_all_thread RevFresh _ R). rewrite app_nil_r in *.
   destruct (thread ifld (revert_fld RevFresh) (ths0 ++ e1) R) as [ths2 R'] eqn:E2.
   destruct (thread_ok ifld (revert_fld RevFresh) (abs_fld ths0) ths0 names (fun f => fld_ok ths0 rid2 (ikeys r2) f)
               (fun e x ths' f' HP Hs => revert_fld_ok ths0 e rid2 (ikeys r2) names x ths' f' HP Hin2 Hs)
-              R e1 ths2 R') as (e2 & -> & HF2 & Hfr2 & HndR); [|exact E2|].
+              R e1 ths2 R') as (e2 & -> & HF2 & Hfr2); [|exact E2|].
   { intros k f Hin. apply (Hok2 k f). unfold R, split_left in Hin. apply filter_In in Hin. tauto. }
   rewrite (merge_all_thread c names _ C). rewrite <- app_assoc in *.
   destruct (thread (ifld * ifld) (fun ths x => merge_fld c names ths (fst x) (snd x)) (ths0 ++ e1 ++ e2) C)
@@ -632,7 +864,7 @@ Proof.
               (fun x => fld_ok ths0 rid1 (ikeys r1) (fst x) /\ fld_ok ths0 rid2 (ikeys r2) (snd x))
               (fun e x ths' f' HP Hs => merge_fld_ok c ths0 e rid1 rid2 (ikeys r1) (ikeys r2) names (fst x) (snd x) ths' f'
                                           Hrev (proj1 HP) (proj2 HP) Hin1 Hin2 Hs)
-              C (e1 ++ e2) ths3 C') as (e3 & -> & HF3 & Hfr3 & HndC); [|exact E3|].
+              C (e1 ++ e2) ths3 C') as (e3 & -> & HF3 & Hfr3); [|exact E3|].
   { intros k [f1 f2] Hin. unfold C, split_center in Hin. apply in_flat_map in Hin.
     destruct Hin as [[k' f1'] [Hin1' Hin2']]. cbn [fst snd] in Hin2'.
     destruct (ilookup k' r2) as [f2'|] eqn:El; [|destruct Hin2'].
@@ -667,28 +899,29 @@ Proof.
       apply in_app_or in Hy. destruct Hy as [Hy|Hy]; apply filter_In in Hy; destruct Hy as [Hy1 Hy2].
       + apply negb_true_iff, mem_false in Hy2. contradiction.
       + congruence. }
-  (* every field of the new record is ready to be patched *)
-  assert (Hpre : forall k f, In (k, f) newrec -> pre_fld (length ths0) names ths3 f).
-  { intros k f Hin. unfold newrec in Hin. rewrite !in_app_iff in Hin. destruct Hin as [Hin|[Hin|Hin]].
-    - destruct (Forall2_In_r ifld Q1 _ _ HF1' k f Hin) as (x & _ & Ho). eapply out_ok_pre_fld. exact Ho.
-    - destruct (Forall2_In_r ifld Q1 _ _ HF2' k f Hin) as (x & _ & Ho). eapply out_ok_pre_fld. exact Ho.
-    - destruct (Forall2_In_r (ifld * ifld) Q3 _ _ HF3 k f Hin) as (x & _ & Ho). eapply out_ok_pre_fld. exact Ho. }
-  assert (Hndt : NoDup (filter (fun t => length ths0 <=? t) (tids newrec))).
-  { unfold newrec, tids. rewrite !flat_map_app. fold (tids L') (tids R') (tids C'). rewrite !filter_app.
-    assert (Hrange : forall (X : irec) lo hi, all_fresh_in ths0 lo hi X ->
-              forall t, In t (filter (fun t => length ths0 <=? t) (tids X)) -> lo <= t < hi).
-    { intros X lo hi HX t Ht. apply filter_In in Ht. destruct Ht as [Ht Hge]. apply Nat.leb_le in Hge.
-      unfold tids in Ht. apply in_flat_map in Ht. destruct Ht as [[k' f'] [Hin Ht]]. cbn [snd] in Ht.
-      destruct (ival f') as [t'|] eqn:Ev'; [|destruct Ht]. destruct Ht as [->|[]]. exact (HX k' f' Hin t Ev' Hge). }
-    apply NoDup_app_disj; [exact HndL | apply NoDup_app_disj; [exact HndR | exact HndC |] |].
-    - intros t H1 H2. pose proof (Hrange _ _ _ Hfr2 t H1). pose proof (Hrange _ _ _ Hfr3 t H2).
-      rewrite !app_length in *. lia.
-    - intros t H1 H2. pose proof (Hrange _ _ _ Hfr1 t H1). apply in_app_or in H2. destruct H2 as [H2|H2].
-      + pose proof (Hrange _ _ _ Hfr2 t H2). rewrite !app_length in *. cbn [length] in *. lia.
-      + pose proof (Hrange _ _ _ Hfr3 t H2). rewrite !app_length in *. cbn [length] in *. lia. }
+  (* every thunk of the new record is ready to be patched *)
+  assert (Htids : tids newrec = tids L' ++ tids R' ++ tids C').
+  { unfold newrec, tids. rewrite !flat_map_app. reflexivity. }
+  assert (Hpre : forall tid, In tid (tids newrec) -> pre_tid (length ths0) names ths3 tid).
+  { intros tid Hin. rewrite Htids in Hin. rewrite !in_app_iff in Hin.
+    assert (Hgen : forall (X : Type) (Q : X -> ifld -> Prop) (l : list (N * X)) (l' : irec),
+              Forall2 (fun kx kf' => fst kf' = fst kx /\ Q (snd kx) (snd kf')) l l' ->
+              (forall x f', Q x f' -> exists tg, out_ok (length ths0) names ths3 tg f') ->
+              In tid (tids l') -> pre_tid (length ths0) names ths3 tid).
+    { intros X Q l l' HF HQ Ht. unfold tids in Ht. apply in_flat_map in Ht. destruct Ht as [[k f] [Hkf Ht]].
+      destruct (Forall2_In_r X Q l l' HF k f Hkf) as (x & _ & Hq). destruct (HQ x f Hq) as (tg & Ho).
+      eapply out_ok_pre; eassumption. }
+    destruct Hin as [Hin|[Hin|Hin]].
+    - apply (Hgen ifld Q1 L L' HF1'); [|exact Hin]. intros x f' Hq. eexists. exact Hq.
+    - apply (Hgen ifld Q1 R R' HF2'); [|exact Hin]. intros x f' Hq. eexists. exact Hq.
+    - apply (Hgen (ifld * ifld)%type Q3 C C' HF3); [|exact Hin]. intros x f' Hq. eexists. exact Hq. }
+  assert (Hndt : NoDup (filter (isfresh (length ths0)) (tids newrec))).
+  { rewrite Htids. apply (fresh_seq_NoDup (length ths0) (length ths0) (length ths3)). unfold ths3 in Hfr3 |- *.
+    assert (H23 : fresh_seq (length ths0) (length (ths0 ++ e1)) (length ((ths0 ++ e1 ++ e2) ++ e3)) (tids R' ++ tids C')) by (fs_app Hfr2 Hfr3).
+    fs_app Hfr1 H23. }
   (* phase 2 *)
-  destruct (patch_all_ok (length (recs st)) (length ths0) names newrec ths3 Hpre Hndt) as (ths4 & Hpatch & Hlen4 & Hnth4).
-  fold newrec. rewrite Hpatch.
+  destruct (patch_tids_ok (length (recs st)) (length ths0) names (tids newrec) ths3 Hpre Hndt) as (ths4 & Hpatch & Hlen4 & Hnth4).
+  fold newrec. unfold patch_all. fold (tids newrec). rewrite Hpatch.
   exists {| thunks := ths4; recs := recs st ++ [newrec] |}. split; [reflexivity|].
   assert (Hfld : forall k f, In (k, f) newrec ->
             exists tgt, sfld_sim (abs_fld ths4 f) tgt /\ fld_ok ths4 (length (recs st)) names f /\
@@ -716,21 +949,12 @@ Proof.
       right. right. exists x. split; [exact Hx|]. split; [reflexivity | exact HinX]. }
   split; [|split].
   - (* nothing that existed before changes *)
-    split; [exists [newrec]; reflexivity|]. cbn [thunks]. fold ths0. intros i Hi. rewrite Hnth4.
-    assert (Hi3 : nth_error ths3 i = nth_error ths0 i).
-    { unfold ths3. rewrite <- !app_assoc. apply nth_error_app1. exact Hi. }
-    rewrite Hi3. destruct (nth_error ths0 i) as [th|] eqn:Eth; [|reflexivity]. cbn [option_map].
-    destruct (in_nat i (tids newrec)) eqn:Em; [|reflexivity].
-    apply in_nat_In in Em. unfold tids in Em. apply in_flat_map in Em. destruct Em as [[k f] [Hin Ht]]. cbn [snd] in Ht.
-    destruct (ival f) as [t|] eqn:Ev; [|destruct Ht]. destruct Ht as [->|[]].
-    specialize (Hpre k f Hin). unfold pre_fld in Hpre. rewrite Ev in Hpre. destruct Hpre as (th' & Hth' & Hpt).
-    rewrite Hi3 in Hth'. inversion Hth'; subst th'.
-    destruct th as [b|o [d|] [c0|]]; cbn [pre_thunk] in Hpt; try contradiction; [reflexivity|].
-    destruct Hpt as (Hge & _). lia.
+    split; [exists [newrec]; reflexivity|]. cbn [thunks]. fold ths0. intros i Hi.
+    rewrite (patch_prefix _ _ _ _ _ _ Hnth4 Hpre i Hi). unfold ths3. rewrite <- !app_assoc. apply nth_error_app1. exact Hi.
   - (* the new record instance is coherent *)
     exists newrec. cbn [recs thunks]. split; [rewrite nth_error_app2 by lia; rewrite Nat.sub_diag; reflexivity|].
     split; [exact Hndk|]. intros k f Hin. destruct (Hfld k f Hin) as (tgt & _ & Hf & _).
-    unfold fld_ok in *. destruct (ival f) as [tid|]; [|exact I]. destruct Hf as (th & Hth & Htok). exists th. split; [exact Hth|].
+    intros tid Ht. destruct (Hf tid Ht) as (th & Hth & Htok). exists th. split; [exact Hth|].
     destruct th as [b|o [d|] [c0|]]; cbn [thunk_ok] in *; try contradiction; [exact Htok|].
     destruct Htok as (Hc & Hwf & Hd). repeat split; try assumption. eapply incl_tran; eassumption.
   - (* it denotes the merge of the denotations of the operands *)
@@ -792,45 +1016,97 @@ Proof.
     exists st', (length (recs st)). split; [exact Hm|]. split; [exact He|]. split; [exact Hco | exact Hs].
 Qed.
 
-(* ------------------------------------------------------------------------- record literals *)
-Definition lit_step (c : cfg) (names : list N) (ths : list thunk) (d : fdef) : list thunk * ifld :=
-  match fbody d with
-  | None => (ths, {| iprio := fprio d; ival := None |})
-  | Some t => (ths ++ [lit_thunk c names t], {| iprio := fprio d; ival := Some (length ths) |})
-  end.
 
-Lemma alloc_lit_thread : forall c names ths l, alloc_lit c names ths l = thread fdef (lit_step c names) ths l.
+(* ------------------------------------------------------------------------- record literals *)
+Lemma alloc_lit_thread : forall c names ths l, alloc_lit c names ths l = thread fdef (alloc_fld c names) ths l.
 Proof.
   intros c names ths l. revert ths. induction l as [|[k d] l IH]; intros ths; cbn [alloc_lit thread]; [reflexivity|].
-  unfold lit_step at 1. destruct (fbody d) as [t|]; rewrite IH; reflexivity.
+  destruct (alloc_fld c names ths d) as [ths1 f]. rewrite IH. reflexivity.
 Qed.
 
 Definition lit_tgt (names : list N) (d : fdef) : sfld :=
-  {| sprio := fprio d; sval := option_map (SLeaf names) (fbody d) |}.
+  {| sprio := fprio d; sval := option_map (SLeaf names) (fbody d);
+     sctrs := map (fun kc => (fst kc, SLeaf names (snd kc))) (fctrs d) |}.
 
-Lemma lit_step_ok : forall c names ths0 e d ths' f',
+(* a thunk allocated for a term of the literal whose variables are all accounted for by [deps] *)
+Lemma mk_thunk_leaf : forall n0 names tid t deps,
+  n0 <= tid -> incl deps names -> (forall x, In x (vars t) -> mem x deps = mem x names) ->
+  pre_thunk n0 names tid (mk_thunk (BSrc t) (Some deps)) /\
+  sb_sim (abs_thunk (mk_thunk (BSrc t) (Some deps))) (SLeaf names t).
+Proof.
+  intros n0 names tid t deps Hge Hinc Hv. split.
+  - apply mk_thunk_pre; [exact Hge | exact I | exact Hinc].
+  - rewrite mk_thunk_abs. cbn [abs_body]. constructor. exact Hv.
+Qed.
+
+Lemma alloc_ctrs_ok : forall n0 names deps cs ths0 e ths' r,
+  n0 = length ths0 -> incl deps names ->
+  (forall kc x, In kc cs -> In x (vars (snd kc)) -> mem x deps = mem x names) ->
+  alloc_ctrs (Some deps) (ths0 ++ e) cs = (ths', r) ->
+  exists e', ths' = (ths0 ++ e) ++ e' /\
+             ctrs_ok n0 names ths' r (map (fun kc => (fst kc, SLeaf names (snd kc))) cs) /\
+             fresh_seq n0 (length (ths0 ++ e)) (length ths') (map snd r).
+Proof.
+  intros n0 names deps. induction cs as [|[k t] cs IH]; intros ths0 e ths' r Hn0 Hinc Hv Ha; cbn [alloc_ctrs] in Ha.
+  - inversion Ha; subst. exists []. rewrite app_nil_r. split; [reflexivity|]. split; [constructor | apply fresh_seq_nil].
+  - destruct (alloc_ctrs (Some deps) ((ths0 ++ e) ++ [ctr_thunk (Some deps) t]) cs) as [ths1 r1] eqn:E1.
+    inversion Ha; subst ths' r. clear Ha. rewrite <- app_assoc in E1.
+    destruct (IH ths0 (e ++ [ctr_thunk (Some deps) t]) ths1 r1 Hn0 Hinc (fun kc x H => Hv kc x (or_intror H)) E1) as (e2 & -> & Hc & Hf).
+    exists ([ctr_thunk (Some deps) t] ++ e2). split; [rewrite !app_assoc; reflexivity|]. split.
+    + cbn [map fst snd]. constructor; [|exact Hc]. split; [reflexivity|]. cbn [snd].
+      assert (Hlt : n0 <= length (ths0 ++ e)) by (subst n0; rewrite app_length; lia).
+      destruct (mk_thunk_leaf n0 names (length (ths0 ++ e)) t deps Hlt Hinc (fun x Hx => Hv (k, t) x (or_introl eq_refl) Hx)) as [Hp Hs].
+      exists (ctr_thunk (Some deps) t). split; [|split; [exact Hp | exact Hs]].
+      rewrite <- !app_assoc. rewrite (app_assoc ths0 e). rewrite nth_error_app2 by lia. rewrite Nat.sub_diag. reflexivity.
+    + cbn [map snd]. change (length (ths0 ++ e) :: map snd r1) with ([length (ths0 ++ e)] ++ map snd r1).
+      assert (H1 : fresh_seq n0 (length (ths0 ++ e)) (S (length (ths0 ++ e))) [length (ths0 ++ e)]) by (apply fresh_seq_one; lia).
+      fs_app H1 Hf.
+Qed.
+
+Lemma alloc_fld_ok : forall c names ths0 e d ths' f',
   c_unknown c = false -> (forall t x, In x (c_an c t) <-> In x (vars t)) ->
-  lit_step c names (ths0 ++ e) d = (ths', f') ->
+  alloc_fld c names (ths0 ++ e) d = (ths', f') ->
   exists e', ths' = (ths0 ++ e) ++ e' /\
              out_ok (length ths0) names ths' (lit_tgt names d) f' /\
-             fresh_in (length ths0) (length (ths0 ++ e)) (length ths') f'.
+             fresh_seq (length ths0) (length (ths0 ++ e)) (length ths') (ftids f').
 Proof.
-  intros c names ths0 e d ths' f' Hu Han Hs. unfold lit_step in Hs. unfold lit_tgt, out_ok, fresh_in. cbn [sprio sval].
-  destruct (fbody d) as [t|]; inversion Hs; subst; clear Hs; cbn [iprio ival option_map].
-  - exists [lit_thunk c names t]. split; [reflexivity|]. split; [split; [reflexivity|]|].
-    + exists (lit_thunk c names t), (SLeaf names t). rewrite nth_error_app2 by lia. rewrite Nat.sub_diag. cbn [nth_error].
-      split; [reflexivity|].
-      assert (Hgen : pre_thunk (length ths0) names (length (ths0 ++ e))
-                       (mk_thunk (BSrc t) (Some (filter (fun x => mem x names) (c_an c t))))
-                     /\ sb_sim (abs_thunk (mk_thunk (BSrc t) (Some (filter (fun x => mem x names) (c_an c t))))) (SLeaf names t)).
-      { split.
-        - apply mk_thunk_pre; [rewrite app_length; lia | exact I |]. intros x Hx. apply filter_In in Hx. apply mem_In. tauto.
-        - rewrite mk_thunk_abs. cbn [abs_body]. constructor. intros x Hx. rewrite mem_filter.
-          assert (Hm : mem x (c_an c t) = true) by (apply mem_In, Han, Hx). rewrite Hm. reflexivity. }
-      unfold lit_thunk. rewrite Hu. destruct t as [z|x|a b|a b|a b t e0]; try (split; [exact (proj1 Hgen)|split; [reflexivity | exact (proj2 Hgen)]]).
-      split; [exact I|]. split; [reflexivity|]. cbn [abs_thunk abs_body]. constructor. intros x [].
-    + intros t' Ht _. inversion Ht; subst. rewrite !app_length. cbn [length]. lia.
-  - exists []. rewrite app_nil_r. split; [reflexivity|]. split; [split; reflexivity|]. intros t' Ht. discriminate.
+  intros c names ths0 e d ths' f' Hu Han Ha. unfold alloc_fld, field_deps in Ha. rewrite Hu in Ha.
+  set (deps := filter (fun x => mem x names)
+                 (flat_map (fun kc => c_an c (snd kc)) (fctrs d) ++ match fbody d with Some t => c_an c t | None => [] end)) in *.
+  assert (Hinc : incl deps names).
+  { intros x Hx. unfold deps in Hx. apply filter_In in Hx. apply mem_In. tauto. }
+  assert (Hval : forall t x, fbody d = Some t -> In x (vars t) -> mem x deps = mem x names).
+  { intros t x Hb Hx. unfold deps. rewrite mem_filter. rewrite Hb.
+    assert (Hm : mem x (flat_map (fun kc => c_an c (snd kc)) (fctrs d) ++ c_an c t) = true).
+    { apply mem_In. apply in_or_app. right. apply Han. exact Hx. }
+    rewrite Hm. reflexivity. }
+  assert (Hctr : forall kc x, In kc (fctrs d) -> In x (vars (snd kc)) -> mem x deps = mem x names).
+  { intros kc x Hkc Hx. unfold deps. rewrite mem_filter.
+    assert (Hm : mem x (flat_map (fun kc => c_an c (snd kc)) (fctrs d) ++ match fbody d with Some t => c_an c t | None => [] end) = true).
+    { apply mem_In. apply in_or_app. left. apply in_flat_map. exists kc. split; [exact Hkc | apply Han; exact Hx]. }
+    rewrite Hm. reflexivity. }
+  destruct (fbody d) as [t|] eqn:Eb.
+  - destruct (alloc_ctrs (Some deps) ((ths0 ++ e) ++ [lit_thunk (Some deps) t]) (fctrs d)) as [ths2 cs] eqn:E2.
+    inversion Ha; subst ths' f'. clear Ha. rewrite <- app_assoc in E2.
+    destruct (alloc_ctrs_ok (length ths0) names deps _ _ _ _ _ eq_refl Hinc Hctr E2) as (e2 & -> & Hc & Hf).
+    exists ([lit_thunk (Some deps) t] ++ e2). split; [rewrite !app_assoc; reflexivity|]. split.
+    + split; [reflexivity|]. cbn [ival ictrs lit_tgt sval sctrs]. rewrite Eb. cbn [option_map]. split; [|exact Hc].
+      cbn [val_ok]. exists (lit_thunk (Some deps) t). split.
+      * rewrite <- !app_assoc. rewrite (app_assoc ths0 e). rewrite nth_error_app2 by lia. rewrite Nat.sub_diag. reflexivity.
+      * assert (Hlt : length ths0 <= length (ths0 ++ e)) by (rewrite app_length; lia).
+        destruct (mk_thunk_leaf (length ths0) names (length (ths0 ++ e)) t deps Hlt Hinc (fun x Hx => Hval t x eq_refl Hx)) as [Hp Hs].
+        unfold lit_thunk. destruct t as [z|x|a b|a b|a b t0 e0]; try (split; [exact Hp | exact Hs]).
+        split; [exact I|]. cbn [abs_thunk abs_body]. constructor. intros x [].
+    + unfold ftids. cbn [ival ictrs].
+      assert (H1 : fresh_seq (length ths0) (length (ths0 ++ e)) (S (length (ths0 ++ e))) [length (ths0 ++ e)])
+        by (apply fresh_seq_one; lia).
+      fs_app H1 Hf.
+  - destruct (alloc_ctrs (Some deps) (ths0 ++ e) (fctrs d)) as [ths2 cs] eqn:E2.
+    inversion Ha; subst ths' f'. clear Ha.
+    destruct (alloc_ctrs_ok (length ths0) names deps _ _ _ _ _ eq_refl Hinc Hctr E2) as (e2 & -> & Hc & Hf).
+    exists e2. split; [reflexivity|]. split.
+    + split; [reflexivity|]. cbn [ival ictrs lit_tgt sval sctrs]. rewrite Eb. cbn [option_map]. split; [exact I | exact Hc].
+    + unfold ftids. cbn [ival ictrs app]. exact Hf.
 Qed.
 
 Lemma slookup_sden_lit : forall l k, slookup k (sden_lit l) = option_map (lit_tgt (lit_scope l)) (alookup k l).
@@ -848,8 +1124,7 @@ Qed.
 
 Lemma fld_ok_mono : forall ths rid keys keys' f, incl keys keys' -> fld_ok ths rid keys f -> fld_ok ths rid keys' f.
 Proof.
-  intros ths rid keys keys' f Hinc H. unfold fld_ok in *. destruct (ival f) as [tid|]; [|exact I].
-  destruct H as (th & Hth & Htok). exists th. split; [exact Hth|].
+  intros ths rid keys keys' f Hinc H tid Ht. destruct (H tid Ht) as (th & Hth & Htok). exists th. split; [exact Hth|].
   destruct th as [b|o [d|] [c|]]; cbn [thunk_ok] in *; try contradiction; [exact Htok|].
   destruct Htok as (Hc & Hwf & Hd). repeat split; try assumption. eapply incl_tran; eassumption.
 Qed.
@@ -861,29 +1136,12 @@ Proof.
   destruct r as [|[k f] r]; [reflexivity|]. cbn [insert_dyn].
   assert (Hstep : (match fdyn d, ival f with
                    | true, Some tid => let (ths1, tid1) := closurize_dyn c ths tid in
-                                       (ths1, {| iprio := iprio f; ival := Some tid1 |})
+                                       (ths1, {| iprio := iprio f; ival := Some tid1; ictrs := ictrs f |})
                    | _, _ => (ths, f)
                    end) = (ths, f)).
-  { destruct (fdyn d); [|reflexivity]. destruct f as [p [tid|]]; cbn [ival iprio]; [|reflexivity].
+  { destruct (fdyn d); [|reflexivity]. destruct f as [p [tid|] cs]; cbn [ival iprio ictrs]; [|reflexivity].
     unfold closurize_dyn. rewrite Hw. destruct (nth_error ths tid) as [[b|o dd cc]|]; reflexivity. }
   rewrite Hstep, (IH ths r Hw). reflexivity.
-Qed.
-
-Lemma patch_prefix : forall rid n0 keys outs ths3 ths4,
-  (forall i, nth_error ths4 i
-             = option_map (fun th => if in_nat i (tids outs) then patch1 rid th else th) (nth_error ths3 i)) ->
-  (forall k f, In (k, f) outs -> pre_fld n0 keys ths3 f) ->
-  forall i, i < n0 -> nth_error ths4 i = nth_error ths3 i.
-Proof.
-  intros rid n0 keys outs ths3 ths4 Hnth Hpre i Hi. rewrite Hnth.
-  destruct (nth_error ths3 i) as [th|] eqn:Eth; [|reflexivity]. cbn [option_map].
-  destruct (in_nat i (tids outs)) eqn:Em; [|reflexivity].
-  apply in_nat_In in Em. unfold tids in Em. apply in_flat_map in Em. destruct Em as [[k f] [Hin Ht]]. cbn [snd] in Ht.
-  destruct (ival f) as [t|] eqn:Ev; [|destruct Ht]. destruct Ht as [->|[]].
-  specialize (Hpre k f Hin). unfold pre_fld in Hpre. rewrite Ev in Hpre. destruct Hpre as (th' & Hth' & Hpt).
-  rewrite Eth in Hth'. inversion Hth'; subst th'.
-  destruct th as [b|o [d|] [c|]]; cbn [pre_thunk] in Hpt; try contradiction; [reflexivity|].
-  destruct Hpt as (Hge & _). lia.
 Qed.
 
 Theorem eval_literal_ok : forall c st l,
@@ -895,19 +1153,21 @@ Proof.
   intros c st l (Hu & _ & Hpm & Hw & Han) Hnd. unfold eval_literal. rewrite Hpm.
   set (ths0 := thunks st). set (names := lit_scope l).
   rewrite alloc_lit_thread.
-  destruct (thread fdef (lit_step c names) ths0 l) as [ths3 r] eqn:E1.
+  destruct (thread fdef (alloc_fld c names) ths0 l) as [ths3 r] eqn:E1.
   rewrite <- (app_nil_r ths0) in E1.
-  destruct (thread_ok fdef (lit_step c names) (lit_tgt names) ths0 names (fun _ => True)
-              (fun e x ths' f' _ Hs => lit_step_ok c names ths0 e x ths' f' Hu Han Hs)
-              l [] ths3 r (fun _ _ _ => I) E1) as (e1 & -> & HF & Hfr & Hndt).
+  destruct (thread_ok fdef (alloc_fld c names) (lit_tgt names) ths0 names (fun _ => True)
+              (fun e x ths' f' _ Hs => alloc_fld_ok c names ths0 e x ths' f' Hu Han Hs)
+              l [] ths3 r (fun _ _ _ => I) E1) as (e1 & -> & HF & Hfr).
   rewrite app_nil_r in *.
   set (Q := fun (d : fdef) (f' : ifld) => out_ok (length ths0) names (ths0 ++ e1) (lit_tgt names d) f').
   assert (Hk : ikeys r = lit_names l) by (apply (Forall2_keys fdef Q _ _ HF)).
   assert (Hsc : incl names (ikeys r)) by (rewrite Hk; apply lit_scope_names).
-  assert (Hpre : forall k f, In (k, f) r -> pre_fld (length ths0) names (ths0 ++ e1) f).
-  { intros k f Hin. destruct (Forall2_In_r fdef Q _ _ HF k f Hin) as (x & _ & Ho). eapply out_ok_pre_fld. exact Ho. }
-  destruct (patch_all_ok (length (recs st)) (length ths0) names r (ths0 ++ e1) Hpre Hndt) as (ths4 & Hpatch & Hlen4 & Hnth4).
-  rewrite Hpatch, (insert_dyn_id c l ths4 r Hw).
+  assert (Hpre : forall tid, In tid (tids r) -> pre_tid (length ths0) names (ths0 ++ e1) tid).
+  { intros tid Ht. unfold tids in Ht. apply in_flat_map in Ht. destruct Ht as [[k f] [Hkf Ht]].
+    destruct (Forall2_In_r fdef Q _ _ HF k f Hkf) as (x & _ & Ho). eapply out_ok_pre; eassumption. }
+  pose proof (fresh_seq_NoDup _ _ _ _ Hfr) as Hndt.
+  destruct (patch_tids_ok (length (recs st)) (length ths0) names (tids r) (ths0 ++ e1) Hpre Hndt) as (ths4 & Hpatch & Hlen4 & Hnth4).
+  unfold patch_all. fold (tids r). rewrite Hpatch, (insert_dyn_id c l ths4 r Hw).
   exists {| thunks := ths4; recs := recs st ++ [r] |}. split; [reflexivity|]. split; [|split].
   - split; [exists [r]; reflexivity|]. cbn [thunks]. fold ths0. intros i Hi.
     rewrite (patch_prefix _ _ _ _ _ _ Hnth4 Hpre i Hi). apply nth_error_app1. exact Hi.
